@@ -412,19 +412,44 @@ example :
 /-! ## 3. reflection: package aliases and `get_class` (the `_MODEL_` blob itself is compared by the harness) -/
 
 /-- The alias `Name_M` of a namespace package refers to a minor version that exists and is numerically the
-greatest of that `(name, major)` — for every set of types (minors 9 vs 10, 3 vs 100 included). -/
+greatest of that `(name, major)` — for every set of types (minors 9 vs 10, 3 vs 100 included) and **whatever the
+`@deprecated` flags are**: the bound ranges over deprecated and non-deprecated definitions alike, so a deprecated
+newest minor is still the one aliased. -/
 theorem C18_alias_is_newest_minor (tys : List TyId) (name : String) (major k : Nat)
     (h : newestMinor tys name major = some k) :
-    ⟨name, major, k⟩ ∈ tys ∧ ∀ t ∈ tys, t.name = name → t.major = major → t.minor ≤ k := by
+    (∃ d, (⟨name, major, k, d⟩ : TyId) ∈ tys) ∧
+      ∀ t ∈ tys, t.name = name → t.major = major → t.minor ≤ k := by
   obtain ⟨hk, hall⟩ := maxMinor_spec _ k h
   constructor
   · obtain ⟨t, ht, rfl⟩ := List.mem_map.1 hk
     obtain ⟨htm, hp⟩ := List.mem_filter.1 ht
     simp only [decide_eq_true_eq] at hp
     obtain ⟨rfl, rfl⟩ := hp
-    exact htm
+    exact ⟨t.deprecated, htm⟩
   · intro t ht hn hm
     exact hall t.minor (List.mem_map.2 ⟨t, List.mem_filter.2 ⟨ht, by simp [hn, hm]⟩, rfl⟩)
+
+/-- The selection is blind to deprecation: flipping any `@deprecated` flags changes no alias. -/
+theorem C18_alias_ignores_deprecation (tys : List TyId) (flip : TyId → Bool) (name : String) (major : Nat) :
+    newestMinor (tys.map fun t => { t with deprecated := flip t }) name major = newestMinor tys name major := by
+  unfold newestMinor
+  congr 1
+  induction tys with
+  | nil => rfl
+  | cons t ts ih =>
+    simp only [List.map_cons]
+    by_cases hp : (t.name = name ∧ t.major = major)
+    · rw [List.filter_cons_of_pos (by simpa using hp), List.filter_cons_of_pos (by simpa using hp)]
+      simp only [List.map_cons]
+      rw [ih]
+    · rw [List.filter_cons_of_neg (by simpa using hp), List.filter_cons_of_neg (by simpa using hp)]
+      exact ih
+
+/-- Newest minor deprecated, older one not: the alias is still the newest (1.1), not 1.0. -/
+example : newestMinor [⟨"DepNew", 1, 0, false⟩, ⟨"DepNew", 1, 1, true⟩] "DepNew" 1 = some 1
+    ∧ newestMinor [⟨"DepMid", 1, 0, false⟩, ⟨"DepMid", 1, 1, true⟩, ⟨"DepMid", 1, 2, false⟩, ⟨"DepMid", 1, 3, true⟩]
+        "DepMid" 1 = some 3 := by
+  constructor <;> decide
 
 /-- Every generated type has its alias, and the alias is at least as new. -/
 theorem C18_alias_exists (tys : List TyId) (t : TyId) (ht : t ∈ tys) :
@@ -436,9 +461,9 @@ theorem C18_alias_exists (tys : List TyId) (t : TyId) (ht : t ∈ tys) :
 
 /-- Lexicographic order would pick the wrong one: among minors 0..12 the integer maximum is 12 (text: "9"),
 and 100 beats 3. -/
-example : newestMinor ((List.range 13).map (fun m => ⟨"Many", 1, m⟩) ++ [⟨"Zero", 0, 3⟩, ⟨"Zero", 0, 100⟩]) "Many" 1 = some 12
-    ∧ aliases ((List.range 13).map (fun m => ⟨"Many", 1, m⟩) ++ [⟨"Zero", 0, 3⟩, ⟨"Zero", 0, 100⟩])
-        = [⟨"Many", 1, 12⟩, ⟨"Zero", 0, 100⟩] := by
+example : newestMinor ((List.range 13).map (fun m => ⟨"Many", 1, m, false⟩) ++ [⟨"Zero", 0, 3, false⟩, ⟨"Zero", 0, 100, false⟩]) "Many" 1 = some 12
+    ∧ aliases ((List.range 13).map (fun m => ⟨"Many", 1, m, false⟩) ++ [⟨"Zero", 0, 3, false⟩, ⟨"Zero", 0, 100, false⟩])
+        = [⟨"Many", 1, 12, false⟩, ⟨"Zero", 0, 100, false⟩] := by
   constructor <;> decide
 
 /-- `get_class`'s module walk finds the generated package of every namespace path, whatever the generator's set
